@@ -33,8 +33,16 @@ for fam in php5 php7; do
 done
 
 (cd "$MC" && go build -overlay "$B/overlay.json" -o "$B/check" ./cmd/check) >"$B/build.log" 2>&1 || { cat "$B/build.log" >&2; fail "go build failed (the tree may not compile)"; }
+if [ "$ID" = C11 ]; then
+  # free-running pass of C11 under the race detector (complements the scheduler exploration)
+  if (cd "$MC" && go build -race -overlay "$B/overlay.json" -o "$B/check-race" ./cmd/check) >"$B/build-race.log" 2>&1; then
+    cp "$B/check-race" "$B/check-race.$$"; export VERIF_RACE_BIN="$B/check-race.$$"
+  else
+    echo "note: -race build failed; race pass skipped" >&2; cat "$B/build-race.log" >&2
+  fi
+fi
 # private copy of the binary so that a concurrent rebuild cannot disturb a running check
 BIN="$B/check.$$"; cp "$B/check" "$BIN"
 flock -u 9
-trap 'rm -f "$BIN"' EXIT
+trap 'rm -f "$BIN" "$B/check-race.$$"' EXIT
 "$BIN" "$ID" --tier "$TIER" "$@"
